@@ -64,7 +64,15 @@ impl SerdeParser {
     /// Parse rename_all value like "camelCase", "snake_case", "PascalCase", etc. to
     /// find a matching `serde_rename_rule::RenameRule`.
     fn parse_rename_all(&self, tokens: &str) -> Option<RenameRule> {
-        if let Some(start) = tokens.find("rename_all") {
+        // The item must be `rename_all` itself, not a longer name such as `rename_all_fields`
+        let start = tokens
+            .match_indices("rename_all")
+            .map(|(pos, _)| pos)
+            .find(|pos| {
+                !tokens[pos + "rename_all".len()..]
+                    .starts_with(|c: char| c.is_alphanumeric() || c == '_')
+            });
+        if let Some(start) = start {
             if let Some(eq_pos) = tokens[start..].find('=') {
                 let after_eq = &tokens[start + eq_pos + 1..].trim_start();
 
